@@ -22,7 +22,7 @@ from vlib import cfg
 
 MANIFEST = dict(
     technique='TLA+ decision-function model of the ingress pipeline over a finite abstract mutation lattice, enumerated exhaustively by TLC (which is also the test-case generator); every abstract frame / fragment sequence / segment sequence is concretised and injected into the real stack in a child process, with liveness probes, crash bisection on fresh children and TLC trace validation of outcome classes and Serving; supplementary seeded noise',
-    text='TLC enumerates every abstract ARP/IPv4/IPv6/ICMP/UDP/TCP frame of the lattice (field classes for header lengths, total/payload lengths, fragment flags and offsets, addresses, view splits, data offsets, flag combinations, a TCP option grammar with truncated options and bad lengths, ICMP types x size classes with truncated embedded headers, ARP validity classes) and every sequence of <= 3 unrestricted fragments (inconsistent, overlapping, two last fragments, zero-length, offsets at 65528 where `last` wraps in uint16) and <= 3 segments on one 4-tuple, all sequences of <= 3 (4 over a core alphabet) segments with real sequence numbers on an ESTABLISHED connection opened passively or actively (out-of-order / overlapping data, data+FIN out of order then the gap fill, FIN then data beyond it, duplicate FIN, RST in/out of window, window-edge straddling, empty segments ahead, SACK on/off, urgent, truncated options, SYN again), ICMP error frames (v4 type 3 codes 0-4/13, types 11, 12; v6 types 1-4; next-hop MTU classes 0..0xffffffff) quoting an established connection (plain / timestamps / SACK, data in flight or idle, right or wrong sequence number), a SYN-SENT socket, a half-open connection, a connected or bound UDP socket or nothing, with full and truncated quotes, followed by a wait longer than one retransmission timeout, plus queue-pressure families (bursts of well-formed frames that overflow one bounded queue: UDP receive buffer of an unread / late-read socket with large, small and fragmented datagrams, SYN backlog, TCP receive buffer, reassembly memory, neighbour cache; afterwards the application reads the queue and the probes run); each is aimed at a listener, an established connection, a bound UDP socket or nothing in a real stack. Oracle: child exit status / panic text, hang (goroutine dump), the three probes of the property (echo answered, new TCP connection completes and echoes data, UDP datagram delivered) plus an established connection that must keep echoing, and the outcome class (DropAt / DeliverTo / Reply) where the specification fixes one. A hole-list model of the reassembler is checked for NoCrash under all such fragment sequences.',
+    text='TLC enumerates every abstract ARP/IPv4/IPv6/ICMP/UDP/TCP frame of the lattice (field classes for header lengths, total/payload lengths, fragment flags and offsets, addresses, view splits, data offsets, flag combinations, a TCP option grammar with truncated options and bad lengths, ICMP types x size classes with truncated embedded headers, ARP validity classes) and every sequence of <= 3 unrestricted fragments (inconsistent, overlapping, two last fragments, zero-length, offsets at 65528 where `last` wraps in uint16) and <= 3 segments on one 4-tuple, all sequences of <= 3 (4 over a core alphabet) segments with real sequence numbers on an ESTABLISHED connection opened passively or actively (out-of-order / overlapping data, data+FIN out of order then the gap fill, FIN then data beyond it, duplicate FIN, RST in/out of window, window-edge straddling, empty segments ahead, SACK on/off, urgent, truncated options, SYN again), "many holes" (2..12 and 40 disjoint out-of-order blocks of 1 or 5 bytes, ascending / descending / shuffled, with duplicates or neighbour-merging overlaps, optionally followed by the gap fills), ICMP error frames (v4 type 3 codes 0-4/13, types 11, 12; v6 types 1-4; next-hop MTU classes 0..0xffffffff) quoting an established connection (plain / timestamps / SACK, data in flight or idle, right or wrong sequence number), a SYN-SENT socket, a half-open connection, a connected or bound UDP socket or nothing, with full and truncated quotes, followed by a wait longer than one retransmission timeout, plus queue-pressure families (bursts of well-formed frames that overflow one bounded queue: UDP receive buffer of an unread / late-read socket with large, small and fragmented datagrams, SYN backlog, TCP receive buffer, reassembly memory, neighbour cache; afterwards the application reads the queue and the probes run); each is aimed at a listener, an established connection, a bound UDP socket or nothing in a real stack. Oracle: child exit status / panic text, hang (goroutine dump), the three probes of the property (echo answered, new TCP connection completes and echoes data, UDP datagram delivered) plus an established connection that must keep echoing, and the outcome class (DropAt / DeliverTo / Reply) where the specification fixes one. A hole-list model of the reassembler is checked for NoCrash under all such fragment sequences.',
     design='5 C07',
     level='model_checking',
     note='The lattice is finite by construction: one representative per field class; a crash that needs a specific VALUE inside a class that the representatives miss is not found. Pure noise (random bytes, truncations and bit flips of valid frames) is not enumerable from a model: it is exploration-grade and judged against Serving only. The quick tier runs every single-mutation case plus a seeded sample (~5 k cases); the thorough tier runs the full lattice. Probe deadlines are give-up bounds: a failed probe / hang counts only if it reproduces on a fresh child with the minimised sequence. Outcome classes are asserted only where the property text (with the RFC validity rules it names) fixes one; IPv4 IHL < 5, bad checksums (the stack verifies none), UDP length < datagram and multi-view corner cases are Unspecified. Observations are attributed to a case by the injecting goroutine or by a per-case tag (port / ident + sequence base / payload pattern).')
@@ -73,7 +73,7 @@ def distance(c):
         return len(c['fs']) - 1
     if k == 'tseq':
         return len(c['ls']) - 1
-    if k in ('press', 'eseq', 'ierr'):
+    if k in ('press', 'eseq', 'ierr', 'holes'):
         return 0
     return 99
 
@@ -247,7 +247,7 @@ def run(ctx):
     if len(allc) + 1 != r1.distinct:
         raise vlib.Inconclusive('dump and state count disagree: %d cases, %d states' % (len(allc), r1.distinct))
     frames = [x for x in allc if x['c']['k'] in ('ip4', 'ip6', 'arp')]
-    seqs = [x for x in allc if x['c']['k'] in ('fseq', 'tseq', 'press', 'eseq', 'ierr')]
+    seqs = [x for x in allc if x['c']['k'] in ('fseq', 'tseq', 'press', 'eseq', 'ierr', 'holes')]
     hist = {}
     for x in allc:
         kk = '%s/%s' % (x['c']['k'], x['o']['kind'])
@@ -265,9 +265,9 @@ def run(ctx):
     seqs = [x for x in seqs if x['c']['k'] != 'press']
     if len(press) < 8:
         raise vlib.Inconclusive('lattice has %d queue-pressure cases' % len(press))
-    eseq = [x for x in seqs if x['c']['k'] == 'eseq']
+    eseq = [x for x in seqs if x['c']['k'] in ('eseq', 'holes')]     # both run on established connections
     ierr = [x for x in seqs if x['c']['k'] == 'ierr']
-    seqs = [x for x in seqs if x['c']['k'] not in ('eseq', 'ierr')]
+    seqs = [x for x in seqs if x['c']['k'] not in ('eseq', 'ierr', 'holes')]
     sel = pick_cases(ctx, frames, seqs)
     # sequences on established connections: quick = all of <= 2 segments; thorough = all (<= 3, and 4 over the core letters)
     ctx.rng.shuffle(eseq)
@@ -277,7 +277,7 @@ def run(ctx):
     by_id = {x['id']: x for x in sel + press + eseq + ierr}
     if not any(x['c']['ty'] == 'big' and x['c']['tgt'] == 'est-ts' and x['c']['fl'] == 'inflight' and 20 <= x['c']['mtu'] <= 52 for x in ierr):
         raise vlib.Inconclusive('lattice lacks a small-MTU "fragmentation needed" error aimed at a timestamped connection with data in flight')
-    if not any(x['c']['ls'] == ['D1F', 'D0'] for x in eseq):
+    if not any(x['c'].get('ls') == ['D1F', 'D0'] for x in eseq):
         raise vlib.Inconclusive('lattice lacks the out-of-order data+FIN then gap-fill sequence')
     # four independent driver runs, side by side (the ICMP one mostly waits for retransmission timeouts):
     #  pressure: each family on its own fresh child, probes right after it
@@ -302,7 +302,9 @@ def run(ctx):
                                  observed={e['c']['q']: sorted(e.get('obs') or []) for e in pevents if e.get('ev') == 'inject'})
     ctx.extra['established'] = dict(sequences=len(eseq), cases_run=esumm['cases'], probe_rounds=esumm['probes'],
                                     by_mode={m: sum(1 for x in eseq if x['c']['mode'] == m) for m in ('pas', 'act')},
-                                    longest=max(len(x['c']['ls']) for x in eseq))
+                                    longest=max(len(x['c'].get('ls', [])) for x in eseq),
+                                    many_holes=sum(1 for x in eseq if x['c']['k'] == 'holes'),
+                                    max_holes=max([x['c']['n'] for x in eseq if x['c']['k'] == 'holes'] or [0]))
     ctx.extra['icmp_errors_at_live_state'] = dict(cases=len(ierr), cases_run=isumm['cases'], probe_rounds=isumm['probes'], settle_ms=1800,
                                                   targets=sorted(set(x['c']['tgt'] for x in ierr)))
     for other in (isumm, esumm, psumm):
@@ -396,7 +398,7 @@ def replay(ctx, data):
     rp = data.get('replay', {})
     raw, cases = [], []
     for m in rp.get('minimal') or ([dict(pkts=rp.get('pkts'))] if rp.get('pkts') else []):
-        if m.get('c', {}).get('k') in ('press', 'eseq', 'tseq', 'ierr'):      # stateful cases are replayed from the abstract case
+        if m.get('c', {}).get('k') in ('press', 'eseq', 'tseq', 'ierr', 'holes'):      # stateful cases are replayed from the abstract case
             cases.append(dict(id=len(cases), c=m['c']))
             continue
         for p in m.get('pkts') or []:
